@@ -2,6 +2,7 @@ package main
 
 import (
 	"fmt"
+	"go/token"
 	"go/types"
 	"strings"
 
@@ -35,6 +36,29 @@ var noEffectPkgs = []string{
 	"net", "github.com/multiformats", "github.com/libp2p/go-libp2p", "github.com/ipfs/go-peertaskqueue", "github.com/ipfs/go-ipld-cbor",
 	"github.com/ipfs/go-bitfield", "github.com/spaolacci/murmur3", "github.com/whyrusleeping/chunker", "github.com/libp2p/go-buffer-pool",
 	"github.com/cespare/xxhash", "github.com/filecoin-project/go-clock", "golang.org/x/",
+}
+
+// packages whose calls are dropped entirely (logger, tracing spans, metrics,
+// mutexes, contexts): they never write state a contract talks about
+var silentPkgs = []string{"go.uber.org/zap", "github.com/ipfs/go-log/v2", "go.opentelemetry.io/", "github.com/prometheus/",
+	"log", "log/slog", "context", "sync", "time", "errors", "github.com/ipfs/go-metrics-interface", "github.com/ipfs/boxo/tracing"}
+
+func (f *Frame) silentCallee(ci ssa.CallInstruction, p callPlan) bool {
+	pkg := ""
+	if p.fn != nil {
+		pkg = pkgPathOf(p.fn)
+	} else if ci != nil && ci.Common().IsInvoke() && ci.Common().Method.Pkg() != nil {
+		pkg = ci.Common().Method.Pkg().Path()
+	}
+	if pkg == "" {
+		return false
+	}
+	for _, n := range silentPkgs {
+		if pkg == n || strings.HasPrefix(pkg, n+"/") || (strings.HasSuffix(n, "/") && strings.HasPrefix(pkg, n)) {
+			return true
+		}
+	}
+	return false
 }
 
 var neverPure = map[string]bool{"time.Now": true, "time.Since": true, "time.Until": true}
@@ -126,6 +150,26 @@ func (f *Frame) resolve(ci ssa.CallInstruction) callPlan {
 	}
 	if cl := f.closures[cm.Value]; cl != nil {
 		return f.resolveStatic(cl.fn, cl, sig)
+	}
+	// function values read from a package-level variable or a struct field may
+	// carry an (assumed) contract keyed by the variable / field
+	if u, ok := cm.Value.(*ssa.UnOp); ok && u.Op == token.MUL {
+		key := ""
+		switch x := u.X.(type) {
+		case *ssa.Global:
+			if x.Pkg != nil {
+				key = "global:" + x.Pkg.Pkg.Path() + "." + x.Name()
+			}
+		case *ssa.FieldAddr:
+			if pt, ok := x.X.Type().Underlying().(*types.Pointer); ok {
+				if st, ok := pt.Elem().Underlying().(*types.Struct); ok {
+					key = "field:" + typeKey(pt.Elem()) + "." + st.Field(x.Field).Name()
+				}
+			}
+		}
+		if fc, ok := c.db.funcs[key]; ok && key != "" {
+			return planFromContract(fc, callPlan{name: key, sig: sig})
+		}
 	}
 	return callPlan{kind: "havoc", name: "dynamic call", sig: sig}
 }
@@ -227,11 +271,18 @@ func (f *Frame) callEffects(ci ssa.CallInstruction) effects {
 			eff.all = true
 			break
 		}
-		for _, k := range f.modifiesComps(p) {
+		ks, ok := f.modifiesComps(p)
+		if !ok {
+			eff.all = true
+		}
+		for _, k := range ks {
 			eff.comps[k] = true
 		}
 	case "intrinsic", "pure":
 	case "noeffect":
+		if f.silentCallee(ci, p) {
+			break
+		}
 		args := cm.Args
 		if cm.IsInvoke() {
 			args = append([]ssa.Value{cm.Value}, args...)
@@ -311,6 +362,10 @@ func (f *Frame) doCall(ci ssa.CallInstruction, st *State, reach Term) []Term {
 		}
 		return out
 	case "noeffect":
+		if f.silentCallee(ci, p) {
+			c.note("logging/tracing/synchronisation call treated as having no effect on the verified heap: " + p.name)
+			return f.havocResults(ci, results, st)
+		}
 		c.note("call without contract, effects limited to directly passed objects: " + p.name)
 		for i, a := range argVals {
 			f.havocDirect(a, args[i].T, st)
@@ -597,9 +652,31 @@ func (f *Frame) modTargets(p callPlan, env *Env) ([]modTarget, error) {
 	return out, err
 }
 
-func (f *Frame) modifiesComps(p callPlan) []string {
-	// shape-only evaluation with dummy arguments
+func (f *Frame) modifiesComps(p callPlan) ([]string, bool) {
+	ts, _, err := f.modTargetsShapeErr(p)
+	if err != nil {
+		return nil, false
+	}
+	var ks []string
+	for _, t := range ts {
+		ks = append(ks, t.comp)
+	}
+	return ks, true
+}
+
+func (f *Frame) modTargetsShape(p callPlan) ([]modTarget, []string) {
+	ts, names, err := f.modTargetsShapeErr(p)
+	if err != nil {
+		return nil, nil
+	}
+	return ts, names
+}
+
+// modTargetsShapeErr resolves the modifies clause against dummy arguments
+// named ?arg0, ?arg1, ... (shape-only evaluation).
+func (f *Frame) modTargetsShapeErr(p callPlan) ([]modTarget, []string, error) {
 	var args []Val
+	var names []string
 	n := p.sig.Params().Len()
 	if p.recv {
 		n++
@@ -621,19 +698,14 @@ func (f *Frame) modifiesComps(p callPlan) []string {
 		} else {
 			s = SIface
 		}
-		args = append(args, Val{T: T(s, "?"), GT: t})
+		nm := fmt.Sprintf("?arg%d", i)
+		names = append(names, nm)
+		args = append(args, Val{T: T(s, nm), GT: t})
 	}
 	dummy := &State{heap: map[string]Term{}, alloc: intLit(0)}
 	env := f.calleeEnv(p, args, dummy, dummy)
 	ts, err := f.modTargets(p, env)
-	if err != nil {
-		return nil
-	}
-	var ks []string
-	for _, t := range ts {
-		ks = append(ks, t.comp)
-	}
-	return ks
+	return ts, names, err
 }
 
 func (f *Frame) applyContract(p callPlan, args []Val, st *State, reach Term, where string, ci ssa.CallInstruction) []Term {
